@@ -542,32 +542,13 @@ pub fn scn_capi(o: &Opts, tr: &mut Tr, prop: &str) {
 }
 
 /// C15: the advertised bound really bounds one-shot zlib output.
-pub fn scn_bound(o: &Opts, tr: &mut Tr, prop: &str) {
-    let mut r = gen::rng(o.seed, 1515);
-    let mut sizes: Vec<usize> = (0..=300).collect();
-    for t in [31743usize, 31744, 31745, 32767, 32768, 32769, 63488, 65535, 65536, 65537, 85196, 100_000] {
-        sizes.push(t);
-    }
-    if o.thorough {
-        for t in [131072usize, 200_000, 317_440, 1_000_000, 3_000_000] {
-            sizes.push(t);
-        }
-    }
-    for t in [1000usize, 5000, 5200, 6000, 12000, 20000, 40000, 58000, 59000] {
-        sizes.push(t);
-    }
-    let kinds = ["rand", "sparse3", "hibytes", "alpha2", "hibytes", "rand"];
-    for (si, &n) in sizes.iter().enumerate() {
-        let reps = if n <= 300 { 1 } else { 3 };
-        for rep in 0..reps {
-            let kind = if n <= 300 { ["rand", "hibytes"][si % 2] } else { kinds[(si + rep) % kinds.len()] };
-            let data = gen::data(kind, n, &mut r);
-            let levels: Vec<i32> = if n <= 300 { vec![[-1, 0, 1, 2, 6, 9, 10][(si + rep) % 7], 6] } else if n > 200_000 { vec![0, 1] } else { vec![0, 1, 6] };
-            for level in levels {
-              let strats: Vec<i32> = if n <= 300 { vec![(si % 5) as i32] } else if n <= 200_000 { vec![0, 4, [1, 2, 3][(si + rep) % 3]] } else { vec![0] };
-              for strat in strats {
+/// one (data, level, strategy): the bound functions, one finishing call into a destination of
+/// exactly the bound (guard-paged), and the size of an unconstrained compression
+fn bound_case(tr: &mut Tr, prop: &str, kind: &str, data: &[u8], level: i32, strat: i32, rep: usize) {
+    let n = data.len();
                 tr.case(&format!("bd-{}-{}-l{}-s{}-{}", kind, n, level, strat, rep), prop, json!({"n": n}));
-                unsafe {
+    let data = &data[..];
+    unsafe {
                     let bound = mz_compressBound(n as _) as usize;
                     let dbound = mz_deflateBound(std::ptr::null_mut(), n as _) as usize;
                     let gin = Guarded::from(&data, true);
@@ -600,8 +581,51 @@ pub fn scn_bound(o: &Opts, tr: &mut Tr, prop: &str) {
                         tr.ev(json!({"ev": "c_compressed_valid"}));
                     }
                 }
+}
+
+pub fn scn_bound(o: &Opts, tr: &mut Tr, prop: &str) {
+    let mut r = gen::rng(o.seed, 1515);
+    let mut sizes: Vec<usize> = (0..=300).collect();
+    for t in [31743usize, 31744, 31745, 32767, 32768, 32769, 63488, 65535, 65536, 65537, 85196, 100_000] {
+        sizes.push(t);
+    }
+    if o.thorough {
+        for t in [131072usize, 200_000, 317_440, 1_000_000, 3_000_000] {
+            sizes.push(t);
+        }
+    }
+    for t in [1000usize, 5000, 5200, 6000, 12000, 20000, 40000, 58000, 59000] {
+        sizes.push(t);
+    }
+    let kinds = ["rand", "sparse3", "hibytes", "alpha2", "hibytes", "rand"];
+    for (si, &n) in sizes.iter().enumerate() {
+        let reps = if n <= 300 { 1 } else { 3 };
+        for rep in 0..reps {
+            let kind = if n <= 300 { ["rand", "hibytes"][si % 2] } else { kinds[(si + rep) % kinds.len()] };
+            let data = gen::data(kind, n, &mut r);
+            let levels: Vec<i32> = if n <= 300 { vec![[-1, 0, 1, 2, 6, 9, 10][(si + rep) % 7], 6] } else if n > 200_000 { vec![0, 1] } else { vec![0, 1, 6] };
+            for level in levels {
+              let strats: Vec<i32> = if n <= 300 { vec![(si % 5) as i32] } else if n <= 200_000 { vec![0, 4, [1, 2, 3][(si + rep) % 3]] } else { vec![0] };
+              for strat in strats {
+                bound_case(tr, prop, kind, &data, level, strat, rep);
             }
               }
+        }
+    }
+    // data sitting just on either side of the block-cut heuristic ("fat": LZ codes * 115/128 >= bytes):
+    // incompressible 9-bit literals with a maximal match every `run` bytes, so that blocks are not cut
+    // early and grow past the window, where the stored-block fallback no longer applies
+    let totals: Vec<usize> = if o.thorough { vec![70_000, 107_000, 300_000, 600_000] } else { vec![70_000, 107_000, 250_000] };
+    for (ti, &total) in totals.iter().enumerate() {
+        for (ri, run) in [8000usize, 12_000, 15_000, 18_000, 22_000, 26_000].iter().enumerate() {
+            if !o.thorough && (ti + ri + o.seed as usize) % 2 == 1 { continue; }
+            let data = gen::data(&format!("nearfat{}", run), total, &mut r);
+            for level in [1i32, 2, 6, 9] {
+                if !o.thorough && level == 9 && total > 150_000 { continue; }
+                for strat in [4i32, 0] {
+                    bound_case(tr, prop, &format!("nearfat{}", run), &data, level, strat, 0);
+                }
+            }
         }
     }
 }
